@@ -146,14 +146,14 @@ pub fn run(ctx: &Ctx) {
     );
     ctx.assume("a 2^-64 FNV collision between two different streams would be reported as a violation (not observed)");
     ctx.assume("order swaps that leave the documented stream byte-identical are the known finding; they are excluded by construction and counted under excluded_known");
-    let n = ctx.tier.pick(20_000, 1_000_000);
+    let n = ctx.tier.pick(120_000, 1_500_000);
     ctx.par_proptest(
         "trees-x-mutations",
         n,
         || (arb_path(), schematree::arb_tree(TreeCfg { depth: 4, width: 4, exotic: true })),
         |(p, t), l| check(p, t, false, l),
     );
-    let n = ctx.tier.pick(3_000, 50_000);
+    let n = ctx.tier.pick(10_000, 100_000);
     ctx.par_proptest("deep-and-wide", n, || (arb_path(), schematree::arb_deep_or_wide(120, 120)), |(p, t), l| check(p, t, false, l));
     super::corpus_checks::c16(ctx);
 }
